@@ -250,7 +250,12 @@ Clauses(S, P, hasPrev, TauSet) ==   \* S = this solve's observation, P = previou
       c13c == IF sameModel /\ prev.ret = "num" /\ solved /\ prev.opts.heur = "none" /\ S.opts.heur = "none"
                  /\ Abs(prev.retv - S.retv) > Tol(S.retv, 100) + 100
               THEN {<<"C13", "value-changed-on-resolve", S.retv - prev.retv>>} ELSE {}
-      c13d == IF hasPrev /\ ~solved /\ \E k \in 1..Len(S.held) : S.held[k].out = "ok"
+      \* "behaves like solving a newly built equivalent model": S is that newly built model, prev the re-solved one
+      c13e == IF ~(hasPrev /\ S.edit = "fresh-twin") THEN {}
+              ELSE IF (prev.ret = "num") # solved THEN {<<"C13", "resolve-and-fresh-model-disagree-on-having-a-value", 0>>}
+              ELSE IF solved /\ Abs(prev.retv - S.retv) > Tol(S.retv, 100) + 100
+                   THEN {<<"C13", "resolve-differs-from-a-newly-built-equivalent-model", prev.retv - S.retv>>} ELSE {}
+      c13d == IF hasPrev /\ S.edit # "fresh-twin" /\ ~solved /\ \E k \in 1..Len(S.held) : S.held[k].out = "ok"
               THEN {<<"C13", "stale-value-after-unsuccessful-solve", 0>>} ELSE {}
       \* ---------------- C11: the MOSEK task recorded from the real MosekWrapper (stand-in mosek module)
       evs == S.task
@@ -319,7 +324,7 @@ Clauses(S, P, hasPrev, TauSet) ==   \* S = this solve's observation, P = previou
      \cup c01a \cup c01b \cup c01c \cup c01d \cup c01e \cup c01f \cup c01g
      \cup c02a \cup c02b \cup c02c \cup c02d \cup c02e \cup c02f \cup c02g \cup c02h \cup c02i \cup c02j
      \cup c14a \cup c14b \cup c14c \cup c14d \cup c14e
-     \cup c13a \cup c13b \cup c13c \cup c13d
+     \cup c13a \cup c13b \cup c13c \cup c13d \cup c13e
      \cup c11a \cup c11b \cup c11c \cup c11d \cup c11e \cup c11f \cup c11g \cup c11x
 Tag(step, cl) == {<<step, c[1], c[2], c[3]>> : c \in cl}
 TInit == /\ tid \in 1..Len(Traces)
